@@ -4,6 +4,7 @@ package main
 // imports of one property's obligations into another that depends on them, and four new rules.
 
 import (
+	"fmt"
 	"go/token"
 	"go/types"
 
@@ -619,4 +620,321 @@ func c19r5(c *Ctx) {
 		}
 	}
 	c.Check(ok, rule, fnName(wwc)+"#cancelled-entry=>Close", "a frame abandoned because the context is done closes the connection", "writeWithContext can give up on an already-committed frame (ctx done on entry) and leave the connection open: both ends are out of step (nonce spent, digest fed) on a connection that looks usable", wwc.Pos(), wit...)
+}
+
+func init() {
+	register("C01", c01r6)
+	register("C04", c04r6)
+	register("C08", c08r5)
+}
+
+// C01-R6: the receiver never rejects a frame because of the nonce arithmetic.
+func c01r6(c *Ctx) {
+	const rule = "C01-R6"
+	c.Doc(rule, "no rejecting branch of decryptDataWithAAD (an edge from which only error returns are reachable) is decided by the receive counter or the base IV: the sender derives each nonce as base + counter with 32-bit wrap and never refuses on that sum, so a receiver that does would reject frames the sender accepted (sibling agreement encrypt/decrypt; the only rejections are short data and AEAD failure)")
+	dec := c.needFn(rule, "stream", "(*Stream).decryptDataWithAAD")
+	ctr := c.needField(rule, "stream", "Stream", "decryptCounter")
+	iv := c.needField(rule, "stream", "Stream", "decryptIV")
+	if dec == nil || ctr == nil || iv == nil {
+		return
+	}
+	succ := c.successTargets(dec)
+	n := 0
+	for _, b := range dec.Blocks {
+		ifi := blockIf(b)
+		if ifi == nil {
+			continue
+		}
+		for si := 0; si < 2; si++ {
+			e := Edge{b, si}
+			if len(e.To().Instrs) == 0 {
+				continue
+			}
+			reach := false
+			for _, t := range succ {
+				if findPath(Point{e.To(), 0}, t.Target(), nil) != nil {
+					reach = true
+					break
+				}
+			}
+			if reach {
+				continue
+			}
+			n++
+			bad := mentionsField(ifi.Cond, ctr) || mentionsField(ifi.Cond, iv)
+			c.Check(!bad, rule, fnName(dec)+"#reject@"+c.condKey(ifi), "rejecting condition does not depend on the receive counter / base IV", "decryptDataWithAAD rejects a frame because of the value of decryptCounter / decryptIV: the sender wraps base+counter silently and keeps sending, so a frame it accepted is refused here and the stream is dead from then on", ifi.Cond.Pos())
+		}
+	}
+	c.MinCount(rule, "rejecting branches of decryptDataWithAAD", n, 4)
+}
+
+// C04-R6: the handshake digests are frozen early only where no key can follow.
+func c04r6(c *Ctx) {
+	const rule = "C04-R6"
+	c.Doc(rule, "Stream.FinalizeDigests (the explicit freeze used for sessions that stay in the clear) is called only from setupStreamEncryption, no SetSymmetricKey is reachable after that call inside it, and in every caller of setupStreamEncryption no key install is reachable after the call returns: cleartext exchanged after a freeze can never precede an encrypted channel (it would escape the first frame's associated data)")
+	fin := c.needFn(rule, "stream", "(*Stream).FinalizeDigests")
+	ssk := c.needFn(rule, "stream", "(*Stream).SetSymmetricKey")
+	setup := c.needFn(rule, "security", "(*Authenticator).setupStreamEncryption")
+	if fin == nil || ssk == nil || setup == nil {
+		return
+	}
+	// functions from which SetSymmetricKey is reachable over static module calls
+	reachesSSK := map[*ssa.Function]bool{}
+	var reaches func(f *ssa.Function, depth int) bool
+	reaches = func(f *ssa.Function, depth int) bool {
+		if f == ssk {
+			return true
+		}
+		if v, ok := reachesSSK[f]; ok {
+			return v
+		}
+		reachesSSK[f] = false
+		if f == nil || f.Blocks == nil || depth > 8 || fnPkg(f) == nil || !inModule(fnPkg(f).Path()) {
+			return false
+		}
+		res := false
+		allInstrs(f, func(_ *ssa.BasicBlock, _ int, in ssa.Instruction) {
+			if call, ok := in.(ssa.CallInstruction); ok && !res {
+				if g := calleeFn(call); g != nil && reaches(g, depth+1) {
+					res = true
+				}
+			}
+		})
+		reachesSSK[f] = res
+		return res
+	}
+	// keyInstallAfter: a call from which SetSymmetricKey is reachable lies after instruction at in fn
+	keyInstallAfter := func(fn *ssa.Function, at ssa.Instruction) ssa.Instruction {
+		var hit ssa.Instruction
+		allInstrs(fn, func(_ *ssa.BasicBlock, _ int, in ssa.Instruction) {
+			if hit != nil || in == at {
+				return
+			}
+			call, ok := in.(ssa.CallInstruction)
+			if !ok {
+				return
+			}
+			g := calleeFn(call)
+			if g == nil || !reaches(g, 0) {
+				return
+			}
+			if findPath(after(at), Target{Instr: in}, nil) != nil {
+				hit = in
+			}
+		})
+		return hit
+	}
+	var fns []*ssa.Function
+	poss := map[*ssa.Function]token.Pos{}
+	n := 0
+	for _, cs := range c.callSites(fin.Object()) {
+		if !libPkg(fnPkg(cs.Fn).Path()) {
+			continue
+		}
+		n++
+		fns = append(fns, cs.Fn)
+		poss[cs.Fn] = cs.Call.Pos()
+		if h := keyInstallAfter(cs.Fn, cs.Call.(ssa.Instruction)); h != nil {
+			c.Violate(rule, fnName(topFn(cs.Fn))+"#FinalizeDigests=>no-key", "a key install is reachable after the handshake digests were frozen: cleartext exchanged in between is not bound into the first protected frame", cs.Call.Pos(), c.Pos(h.Pos()))
+		} else {
+			c.Ok(rule, fnName(topFn(cs.Fn))+"#FinalizeDigests=>no-key", "no key install is reachable after the explicit freeze in this function", cs.Call.Pos())
+		}
+	}
+	c.whoMay(rule, "call Stream.FinalizeDigests", fns, poss, fnSet(setup))
+	for _, cs := range c.callSites(setup.Object()) {
+		n++
+		if h := keyInstallAfter(cs.Fn, cs.Call.(ssa.Instruction)); h != nil {
+			c.Violate(rule, fnName(topFn(cs.Fn))+"#after-setupStreamEncryption", "a (second) key install is reachable after setupStreamEncryption returned, which may have frozen the digests for a cleartext session", cs.Call.Pos(), c.Pos(h.Pos()))
+		} else {
+			c.Ok(rule, fnName(topFn(cs.Fn))+"#after-setupStreamEncryption", "no key install follows setupStreamEncryption here", cs.Call.Pos())
+		}
+	}
+	c.MinCount(rule, "FinalizeDigests / setupStreamEncryption call sites", n, 5)
+}
+
+// C08-R5: serialising does not write through its byte-slice arguments.
+func c08r5(c *Ctx) {
+	const rule = "C08-R5"
+	c.Doc(rule, "no encode-side function of package message (Put*, putClassAd*) appends to, stores into or copy()s into memory rooted at one of its []byte parameters: a caller may hand sub-slices of one shared buffer (PutClassAdRawBytes documents this), and an append with spare capacity would overwrite the next expression's first byte")
+	n := 0
+	for _, fn := range c.FnsOfPkg("message") {
+		name := fn.Name()
+		if fn.Parent() != nil || !(len(name) >= 3 && (name[:3] == "Put" || name[:3] == "put")) {
+			continue
+		}
+		var params []ssa.Value
+		for _, p := range fn.Params {
+			if sl, ok := p.Type().Underlying().(*types.Slice); ok {
+				if b, ok := sl.Elem().Underlying().(*types.Basic); ok && b.Kind() == types.Byte {
+					params = append(params, p)
+				}
+			}
+		}
+		if len(params) == 0 {
+			continue
+		}
+		n++
+		rootedAtParam := func(v ssa.Value) bool {
+			seen := map[ssa.Value]bool{}
+			var walk func(v ssa.Value) bool
+			walk = func(v ssa.Value) bool {
+				if v == nil || seen[v] {
+					return false
+				}
+				seen[v] = true
+				for _, p := range params {
+					if v == p {
+						return true
+					}
+				}
+				switch x := v.(type) {
+				case *ssa.Slice:
+					return walk(x.X)
+				case *ssa.Phi:
+					for _, e := range x.Edges {
+						if walk(e) {
+							return true
+						}
+					}
+				case *ssa.IndexAddr:
+					return walk(x.X)
+				}
+				return false
+			}
+			return walk(v)
+		}
+		bad := false
+		allInstrs(fn, func(_ *ssa.BasicBlock, _ int, in ssa.Instruction) {
+			switch x := in.(type) {
+			case *ssa.Call:
+				if b, ok := x.Call.Value.(*ssa.Builtin); ok {
+					if (b.Name() == "append" || b.Name() == "copy") && len(x.Call.Args) > 0 && rootedAtParam(x.Call.Args[0]) {
+						bad = true
+						c.Violate(rule, fnName(fn)+"#"+b.Name()+"-to-param", b.Name()+"() targets the caller's byte slice: with spare capacity this overwrites the bytes that follow it in the caller's buffer", x.Pos())
+					}
+				}
+			case *ssa.Store:
+				if rootedAtParam(x.Addr) {
+					bad = true
+					c.Violate(rule, fnName(fn)+"#store-to-param", "stores into the caller's byte slice", x.Pos())
+				}
+			}
+		})
+		if !bad {
+			c.Ok(rule, fnName(fn)+"#args-read-only", "does not write through its []byte parameters", fn.Pos())
+		}
+	}
+	c.MinCount(rule, "encode functions with []byte parameters", n, 3)
+}
+
+func init() { register("C13", c13r7) }
+
+// C13-R7: x[c1 : len(x)-c2] needs len(x) >= c1+c2 on the dominating path.
+func c13r7(c *Ctx) {
+	const rule = "C13-R7"
+	c.Doc(rule, "every slice expression x[c1:len(x)-c2] with constants c1 >= 1, c2 >= 1 (the strip-the-delimiters idiom of the text parsers: claim ids, session info, sinful strings, ClassAd literals) in library code is dominated by an edge on which len(x) >= c1+c2 is established by a comparison of len(x) with a constant; a pair of HasPrefix/HasSuffix tests is not such a bound (one byte can be both)")
+	n := 0
+	for _, fn := range c.ModFns {
+		if pk := fnPkg(fn); pk == nil || !libPkg(pk.Path()) {
+			continue
+		}
+		allInstrs(fn, func(_ *ssa.BasicBlock, _ int, in ssa.Instruction) {
+			sl, ok := in.(*ssa.Slice)
+			if !ok || sl.High == nil {
+				return
+			}
+			c1 := int64(0)
+			if sl.Low != nil {
+				k, isC := constInt(sl.Low)
+				if !isC {
+					return
+				}
+				c1 = k
+			}
+			bo, ok := sl.High.(*ssa.BinOp)
+			if !ok || bo.Op != token.SUB {
+				return
+			}
+			c2, isC := constInt(bo.Y)
+			lenCall, isLen := bo.X.(*ssa.Call)
+			if !isC || !isLen || c2 <= 0 || c1 <= 0 {
+				// c1 == 0 (drop a trailing byte) is always preceded by an element test x[len(x)-1], which is
+				// the earlier panic point and belongs to the index sinks of C13-R1
+				return
+			}
+			if b, ok := lenCall.Call.Value.(*ssa.Builtin); !ok || b.Name() != "len" || lenCall.Call.Args[0] != sl.X {
+				return
+			}
+			n++
+			need := c1 + c2
+			// edges establishing len(x) >= need
+			cuts := newCuts()
+			for _, b := range fn.Blocks {
+				ifi := blockIf(b)
+				if ifi == nil {
+					continue
+				}
+				a := condAtom(ifi.Cond)
+				if a.Op == token.ILLEGAL {
+					continue
+				}
+				lc, isCall := a.X.(*ssa.Call)
+				k, isK := constInt(a.Y)
+				op := a.Op
+				if !isCall || !isK {
+					// constant on the left
+					lc, isCall = a.Y.(*ssa.Call)
+					k, isK = constInt(a.X)
+					switch op {
+					case token.LSS:
+						op = token.GTR
+					case token.LEQ:
+						op = token.GEQ
+					case token.GTR:
+						op = token.LSS
+					case token.GEQ:
+						op = token.LEQ
+					}
+				}
+				if !isCall || !isK {
+					continue
+				}
+				if bi, ok := lc.Call.Value.(*ssa.Builtin); !ok || bi.Name() != "len" || lc.Call.Args[0] != sl.X {
+					continue
+				}
+				// which edge implies len >= need?
+				var tEdge, fEdge bool
+				switch op {
+				case token.GEQ:
+					tEdge = k >= need
+				case token.GTR:
+					tEdge = k+1 >= need
+				case token.LSS:
+					fEdge = k >= need
+				case token.LEQ:
+					fEdge = k+1 >= need
+				case token.EQL:
+					tEdge = k >= need
+				case token.NEQ:
+					fEdge = k >= need
+				}
+				if a.Neg {
+					tEdge, fEdge = fEdge, tEdge
+				}
+				if tEdge {
+					cuts.AddEdges(Edge{b, 0})
+				}
+				if fEdge {
+					cuts.AddEdges(Edge{b, 1})
+				}
+			}
+			construct := fmt.Sprintf("%s#%s[%d:len-%d]", fnName(fn), sl.X.Name(), c1, c2)
+			if p := findPath(entryPoint(fn), Target{Instr: sl}, cuts); p != nil {
+				c.Violate(rule, construct, fmt.Sprintf("x[%d:len(x)-%d] is reachable without len(x) >= %d having been established: an input of %d byte(s) panics with 'slice bounds out of range'", c1, c2, need, need-1), sl.Pos(), c.describePath(p)...)
+			} else {
+				c.Ok(rule, construct, fmt.Sprintf("dominated by len(x) >= %d", need), sl.Pos())
+			}
+		})
+	}
+	c.MinCount(rule, "x[c1:len(x)-c2] slice sites in library code", n, 5)
 }
